@@ -33,12 +33,13 @@ Definition ainvb (s : st) (a : nat) : bool :=
   impb (kdis x KLocal || kdis x KPush) (Nat.eqb a 0) &&
   impb (inpush (pc x)) (kdis x KPush) &&
   match pc x with
-  | Idle | Ext | OW | ON | OB | OC | X0 | X1 | X2 | E0 | E1 | E2 => true
+  | Idle | Ext | OW | ON | OB | OC | X0 | E0 | E1 | E2 => true
+  | X1 | X2 => negb (kdis x KLocal)
   | XC => negb (emptyck B x) && Nat.eqb (nid x) (newid B x) && local_okb s x
   | XS => Nat.ltb (nid x) B && local_okb s x &&
           if locked B x then lock_okb s x && impb (kdis x KLocal) (Nat.leb (S (bs + li x)) (tix s))
           else claim_okb s a x && Nat.eqb (ghi x) (bs + nexti x) && impb (kdis x KLocal) (Nat.leb (ghi x) (tix s))
-  | XT => lock_okb s x && negb (kdis x KLocal) && Nat.eqb (ppi x) (bs + li x)
+  | XT => lock_okb s x && negb (kdis x KLocal) && Nat.eqb (ppi x) (bs + li x) && locked B x
   | XR => lock_okb s x && negb (kdis x KLocal)
   | XN => lock_okb s x && Nat.eqb (ppi x) (bs + li x) && Nat.eqb (pend x) (bs + B) && Nat.leb (pend x) (tix s)
   | XH => lock_okb s x && Nat.eqb (ppi x) (bs + li x) && Nat.eqb (pend x) (bs + B) && Nat.leb (pend x) (tix s) &&
@@ -83,7 +84,7 @@ Definition clauses (s : st) : list bool :=
     (* 8 IGt *) forallb (fun g => let '(a, i, v) := g in rd s i && oeqb (cl s i) (Some a) && oeqb v (val_atb s i) && Nat.ltb i (tix s)) (got s);
     (* 9 IGn *) nodupb (map (fun g => snd (fst g)) (got s));
     (* 10 IGr *) forallb (fun i => impb (rd s i) (existsb (Nat.eqb i) (map (fun g => snd (fst g)) (got s)))) IS;
-    (* 11 ILk *) forallb (fun a => impb (lockpc B (A s a)) (lock_okb s (A s a))) AS;
+    (* 11 ILu *) forallb (fun a => forallb (fun a' => impb (lockpc B (A s a) && lockpc B (A s a')) (Nat.eqb a a')) AS) AS;
     (* 12 IAc *) forallb (ainvb s) AS;
     (* 13 IMn *) negb (bad_uaf s) && negb (bad_under s) && negb (bad_null s);
     (* 14 statement (i) as the acceptor checks it *) got_ok s;
